@@ -123,11 +123,12 @@ def main():
                         source_commits=[], add_only=True),
              engines=[dict(name="SCHED", path="engine/mcrt_*.c + harness/sched_*.c", serves_properties=sorted(p for p in CLAIMED if "SCHED" in CLAIMED[p]["engine"]),
                            kind_free_text="stateless preemption-bounded DFS over real threads under a controlled scheduler (fork per execution), POSIX threads model, vector-clock happens-before monitor fed by compiler instrumentation, state-hash pruning"),
+                      dict(name="FAULT/ENV", path="harness/alloc_fault.c, eintr_fault.c, resource_seq.c, ipc_hist.c (crash points)", serves_properties=["C06", "C07", "C18", "C19", "C20"], kind_free_text="exhaustive single-fault enumeration in forked ASan children: allocation index, EINTR at every blocking-call invocation, forced system-call failures, SIGKILL before/after every IPC call"),
                       dict(name="KSIM", path="engine/ksim.c + engine/mcrt_ksim.c", serves_properties=["C09", "C10"], kind_free_text="in-memory POSIX socket layer with tiny buffers, virtual clock and deviation points; conformance-replayed on the real kernel"),
                       dict(name="SEQ", path="engine/ + harness/", serves_properties=sorted(p for p in CLAIMED if "SEQ" in CLAIMED[p]["engine"]),
                            kind_free_text="explicit-state / bounded-exhaustive exploration of sequential APIs on the real objects against reference models")],
              checks=checks,
-             notes="All checks rebuild the library from /repo's working tree into /verif/build (git-ignored). Violations already repaired in /repo are listed as 'fixed:' in known_findings.txt.",
+             notes="All checks rebuild the library from /repo's working tree into /verif/build (git-ignored). Violations already repaired in /repo are listed as 'fixed:' in known_findings.txt; three genuine defects that need a design change are listed as 'known:'. engine/seed_matrix.py re-runs every filed seeded change (seeded/) against the checks recorded as catching it, in isolation (VERIF_REPO/VERIF_BUILD).",
              not_applicable=na)
     json.dump(m, open(os.path.join(VERIF, "MANIFEST.json"), "w"), indent=1)
     print("MANIFEST.json: %d claimed, %d not claimed" % (len(checks), len(na)))
